@@ -31,10 +31,12 @@ impl LintPass for StackCheckPass {
                         }
 
                         if let Some((reg2, off2)) = node.uses_memory_location() {
-                            if reg2 == Register::X2 && off2.value() + off >= 0 {
+                            // Position relative to the original sp, without overflow
+                            let position = i64::from(off2.value()) + i64::from(*off);
+                            if reg2 == Register::X2 && position >= 0 {
                                 errors.push(LintError::InvalidStackOffsetUsage(
                                     node.node().clone(),
-                                    off2.value() + off,
+                                    i32::try_from(position).unwrap_or(i32::MAX),
                                 ));
                             }
                         }
